@@ -115,10 +115,25 @@ def plain_component(max_len=4096):
     return _c()
 
 
+def with_repeats(comps_strategy):
+    """a component list in which, now and then, an earlier component is listed AGAIN (equal spec = same object, see sut.mk_bf3)"""
+
+    @st.composite
+    def _r(draw):
+        comps = list(draw(comps_strategy))
+        if comps and draw(st.integers(0, 3)) == 0:
+            for _ in range(draw(st.integers(1, 2))):
+                src = comps[draw(st.integers(0, len(comps) - 1))]
+                comps.insert(draw(st.integers(0, len(comps))), src)
+        return comps
+
+    return _r()
+
+
 def bf3_case(max_comps=6, max_len=4096):
     return st.fixed_dictionaries(dict(
         comments=comment_list(),
-        comps=st.lists(plain_component(max_len), max_size=max_comps),
+        comps=with_repeats(st.lists(plain_component(max_len), max_size=max_comps)),
         key=session_key(),
         route=st.sampled_from(["stream", "path"]),
         check_cmac=st.booleans(),
